@@ -512,6 +512,25 @@ func (ex *Exec) builtin(fr *Frame, st *State, b *ssa.Builtin, c *ssa.CallCommon,
 		}
 		st.vars["panicking"] = nilIface()
 		return Sc{pv}
+	case "clear":
+		// clear(slice): the elements become zero; modelled as an arbitrary content of the backing
+		// array (an over-approximation: zero is one of the possible contents). clear(map) is not modelled.
+		if len(args) == 1 {
+			if sl, ok := c.Args[0].Type().Underlying().(*types.Slice); ok {
+				if es, ok := ex.cx.sortOf(sl.Elem()); ok {
+					if sc, ok := args[0].(Sc); ok {
+						nm := contentHeapName(es)
+						h := ex.heap(st, nm, ex.contentSort(es))
+						fresh := ex.cx.fresh("havoc_arr", arrSort(ex.cx.intS(), es))
+						ex.setHeap(st, nm, ex.cx.name("h", store(h, app(SRef, "sarr", sc.T), fresh)))
+						ex.cx.note("builtin clear(slice) is modelled as an arbitrary overwrite of the backing array")
+						return nil
+					}
+				}
+			}
+		}
+		ex.cx.unsup("builtin clear on this operand")
+		return nil
 	case "print", "println":
 		return nil
 	case "ssa:wrapnilchk":
